@@ -40,6 +40,7 @@ try:
     demofile = os.path.join(wt, place, "zz_seeded_demo_test.go")
 
     def put_demo():
+        os.makedirs(os.path.dirname(demofile), exist_ok=True)
         shutil.copy(os.path.join(src, "demo_test.go"), demofile)
         for f in extra:
             shutil.copy(os.path.join(src, f), os.path.join(wt, place, "zz_" + f))
